@@ -2,6 +2,7 @@ import Driver.Proto
 import Selene.Lua.Read
 import Selene.Scope.Lints
 import Selene.Scope.Spec
+import Selene.Scope.Core
 namespace Driver.Scope
 open Selene Selene.Lua Selene.Scope
 
@@ -22,7 +23,7 @@ def showVar (σ : St) (v : Variable) : String :=
   let sh := match v.shadowed with
     | some s => match σ.vars[s]? with | some x => toString x.ident | none => "?"
     | none => "none"
-  s!"({v.name.quote} {v.ident} {sh} {v.isSelf} {v.references.length})"
+  s!"({v.name.quote} {v.ident} {sh} {v.isSelf} {v.references.length} {v.hoisted})"
 
 def showCall (σ : St) (c : CallStmt) : String :=
   let ir := match σ.refs[c.initialRef]? with | some r => toString r.ident | none => "?"
@@ -97,6 +98,21 @@ def handleTables : Handler := fun input impl =>
         let mdV2 := sortStrs ((undefinedVariable hasFields σ ++ unusedVariable hasFields argObs ignoreV2 true σ ++ shadowing ignoreV2 σ ++ mustUse isMustUse σ).map showDiag)
         let diagsOk := md == idk && mdV1 == sortStrs (idiagsV1.filterMap implDiagKey) && mdV2 == sortStrs (idiagsV2.filterMap implDiagKey)
         let panicOk := σ.panic.isNone
+        -- the resolution core (`Scope/Core.lean`, the machine `Props/C01.lean` proves equal to Lua's resolver):
+        -- every read it records, with the local declaration it denotes, against the implementation's read references
+        let coreRefs : List (Nat × Option Nat) := (Core.analyse chunk.block).refs.map fun r => (r.tok, Core.localBinding r)
+        let globalVars : List Nat := ivars.filterMap fun v => match v with
+          | .list [_, id, _, _, _, g] => if g.asBool? == some true then id.asNat? else none
+          | _ => none
+        let implReads : List (Nat × Option Nat) := irefs.filterMap fun r => match r with
+          | .list (t :: _n :: res :: rd :: _) => match t.asNat?, rd.asBool? with
+            | some t, some true => some (t, match res.asNat? with
+                | some d => if globalVars.contains d then none else some d
+                | none => none)
+            | _, _ => none
+          | _ => none
+        let showAns := fun (l : List (Nat × Option Nat)) => sortStrs (l.map fun (t, b) => s!"{t}->{optNat b}")
+        let coreOk := showAns coreRefs == showAns implReads
         -- ---------- specification checks on the implementation's tables / diagnostics ----------
         let declToks := spec.decls.map (·.tok)
         -- implementation's view: token ↦ resolved declaration token (only script declarations count as local bindings)
@@ -197,11 +213,12 @@ def handleTables : Handler := fun input impl =>
           (if !undefToks.isEmpty then ["undefined-reported"] else []) ++
           (if !unusedToks.isEmpty then ["unused-reported"] else []) ++
           (if !shadowDiags.isEmpty then ["shadowing-reported"] else [])
-        { agree := refsOk && varsOk && callsOk && diagsOk && panicOk,
+        { agree := refsOk && varsOk && callsOk && diagsOk && panicOk && coreOk,
           spec := if items.isEmpty then none else some (" ;; ".intercalate items),
           model := (if md == idk then "" else "DEFAULT-CONFIG-DIAGS ") ++ (if panicOk then "" else s!"MODEL-PANIC {repr σ.panic} ") ++
                    (if refsOk then "" else s!"REFS model {mrefs} ") ++ (if varsOk then "" else s!"VARS model {mvars} ") ++
-                   (if callsOk then "" else s!"CALLS model {mcalls} ") ++ (if diagsOk then "" else s!"DIAGS model {md} impl {idk}"),
+                   (if callsOk then "" else s!"CALLS model {mcalls} ") ++
+                   (if coreOk then "" else s!"CORE model {showAns coreRefs} impl {showAns implReads} ") ++ (if diagsOk then "" else s!"DIAGS model {md} impl {idk}"),
           tags }
       | _ => .malformed "tables impl"
     | _, _ => .malformed "tables chunk"
